@@ -25,6 +25,11 @@ def run_case(case, chooser, max_steps=100_000, max_time=20000.0, keep_log=False)
         s.pct_changes = set(strategy.get("changes", ()))
     if case.get("preempt"):
         s.preempt_plan = set(case["preempt"])
+    if case.get("preempt_at"):
+        tg = {}
+        for name, n in case["preempt_at"]:
+            tg.setdefault(name, set()).add(n)
+        s.preempt_targets = tg
     s.poplog = []
     ctx = A.Ctx(w, case)
     A.install_bridge(ctx)
